@@ -80,6 +80,9 @@ func (m *RWMutex) lock() {
 	}
 	w.Yield("Lock")
 	t := w.cur
+	if m.wHolder == t {
+		w.selfDeadlock("Lock " + where(m) + " (held for writing by the same task)")
+	}
 	if m.wHolder != nil {
 		m.wQueue = append(m.wQueue, t)
 		for m.wHolder != t {
@@ -149,6 +152,11 @@ func (m *RWMutex) rlock() {
 	}
 	w.Yield("RLock")
 	t := w.cur
+	if m.announced && m.wHolder == t {
+		// sync.RWMutex is not re-entrant: a task asking for the read lock of a mutex it holds
+		// (or has announced) for writing waits for itself, whoever else may run
+		w.selfDeadlock("RLock " + where(m) + " (held for writing by the same task)")
+	}
 	if m.announced {
 		if m.rcount(t) > 0 {
 			w.Stat("rlock-reentered-behind-writer")
